@@ -139,8 +139,11 @@ _fd = lambda a_: L.fn("fd_" + a_, L.V, L.V)
 _fa = [L.const("fda%d" % q_) for q_ in range(5)]
 _fb = L.const("fdb", L.B)
 _app = mk_fd(_fa[0], _fa[1], _fa[2], _fa[3], _fb, _fa[4])
-L.axiom(T, "mk-fd", L.FA(_fa + [_fb], z3.And(_fd("module")(_app) == _fa[0], _fd("qualname")(_app) == _fa[1], _fd("kind")(_app) == _fa[2], _fd("signature")(_app) == _fa[3],
-                                             L.fn("fd_is_async", L.V, L.B)(_app) == _fb, _fd("typed_dict_class_stubs")(_app) == _fa[4], _app != L.NONE), [_app]))
+# stated for string module / qualname only: mk_fd is a total function symbol and T-STUBS says every definition's module and qualname are strings
+# (unguarded, mk_fd(None, ...) made the axiom set unsatisfiable - found by tools/consistency.py in the thorough tier)
+L.axiom(T, "mk-fd", L.FA(_fa + [_fb], z3.Implies(z3.And(L.is_str(_fa[0]), L.is_str(_fa[1])),
+                                                 z3.And(_fd("module")(_app) == _fa[0], _fd("qualname")(_app) == _fa[1], _fd("kind")(_app) == _fa[2], _fd("signature")(_app) == _fa[3],
+                                                        L.fn("fd_is_async", L.V, L.B)(_app) == _fb, _fd("typed_dict_class_stubs")(_app) == _fa[4], _app != L.NONE)), [_app]))
 
 
 def _fd_ctor(ip, a, kw, node):
